@@ -5315,7 +5315,7 @@ fn eval_built_in_method_call(
                     return Err((
                         RestoreValues(saved_values),
                         EvalError::Exception(ExceptionInfo {
-                            position: arg_positions[0].clone(),
+                            position: receiver_pos.clone(),
                             message: format_type_error(
                                 &TypeName {
                                     text: "Dict".into(),
@@ -5453,7 +5453,7 @@ fn eval_built_in_method_call(
                     return Err((
                         RestoreValues(saved_values),
                         EvalError::Exception(ExceptionInfo {
-                            position: arg_positions[0].clone(),
+                            position: receiver_pos.clone(),
                             message: format_type_error(
                                 &TypeName {
                                     text: "Float".into(),
@@ -5493,7 +5493,7 @@ fn eval_built_in_method_call(
                     return Err((
                         RestoreValues(saved_values),
                         EvalError::Exception(ExceptionInfo {
-                            position: arg_positions[0].clone(),
+                            position: receiver_pos.clone(),
                             message: format_type_error(
                                 &TypeName {
                                     text: "Float".into(),
@@ -5533,7 +5533,7 @@ fn eval_built_in_method_call(
                     return Err((
                         RestoreValues(saved_values),
                         EvalError::Exception(ExceptionInfo {
-                            position: arg_positions[0].clone(),
+                            position: receiver_pos.clone(),
                             message: format_type_error(
                                 &TypeName { text: "Int".into() },
                                 receiver_value,
@@ -5733,7 +5733,7 @@ fn eval_built_in_method_call(
                     return Err((
                         RestoreValues(saved_values),
                         EvalError::Exception(ExceptionInfo {
-                            position: arg_positions[0].clone(),
+                            position: receiver_pos.clone(),
                             message: format_type_error(
                                 &TypeName {
                                     text: "List".into(),
